@@ -338,7 +338,7 @@ PROPS["C17"] = dict(
     technique="fault enumeration over the bundled model files (one damaged file per load attempt) with the real loaders running under ASan/UBSan; "
               "half of the attempts through exact-size heap buffers (hook H3) so that the first byte read past the file is reported, half through the real mmap path",
     level_text="fault_enumeration: for en-us and fr-fr and each of mdef, means, variances, sendump, transition_matrices, feat_params.json (and the "
-               "feature_transform used with -lda, en-us): file missing; empty; truncated at every 5th (quick) / every (thorough) byte of the header "
+               "feature_transform used with -lda, en-us; and a mixture_weights file derived from the fr-fr senone dump, loaded in place of the dump): file missing; empty; truncated at every 5th (quick) / every (thorough) byte of the header "
                "region (text header + 64 bytes) and at the checksum, page boundaries and random payload offsets; every 32-bit word of the first 64 bytes "
                "after the header (where the counts and dimensions live) replaced by 0, 1, 2, 65536, 2^31-1, 2^31, 2^32-1, +1, -1; byte-order magic "
                "swapped / garbage; checksum flipped; text header lines damaged. decoder_init() must return NULL with no sanitizer report, signal, "
@@ -354,7 +354,7 @@ PROPS["C17"] = dict(
     stages=[dict(harness="h_model", flavor="asan", quick=-1, thorough=-1)],
     floor=dict(min_evaluations=1000, min_distinct=1000, counters={"cases_heap_backed": 500, "cases_mmap": 500, "intact_reloads_checked": 50,
                                                                 "file_mdef": 100, "file_means": 100, "file_variances": 100, "file_sendump": 100,
-                                                                "file_transition_matrices": 100, "file_feat_params.json": 20, "file_feature_transform": 50,
+                                                                "file_transition_matrices": 100, "file_feat_params.json": 20, "file_feature_transform": 50, "file_mixture_weights": 50,
                                                                 "refused_truncate_header": 300, "refused_truncate_payload": 100, "refused_field:n_phone": 10, "refused_field:n_mgau": 20,
                                                                 "refused_field:n_tmat": 10, "refused_field:rows": 10, "refused_field:sseq_size": 10, "refused_checksum": 5, "refused_magic": 10,
                                                                 "refused_missing": 10, "refused_empty": 10, "loaded_control": 13}),
